@@ -92,6 +92,11 @@ def run(tier):
                               # versions 2 and 3 have no header checksum: marker bytes inside a payload are indistinguishable from a record start there
                               "seeks": [] if fam == "marker" else [0, 8, 9, 100, 4095, 4096, 4097], "damage": ""})
             batches.append(("legacy-v%d-%s" % (ver, fam), recs, cases))
+    # length sweep: without compression the record header (and with it the header checksum and its varint form) is a function of the payload LENGTH alone -
+    # one file holds a record of every length 1..3300, so every header of that range is written and read once (by index, not by a random draw)
+    recs = {"r%d" % n: bytes([65 + n % 23]) * n for n in range(1, 3301)}
+    ops = [{"op": "write", "rec": t, "j": 0} for t in recs] + [{"op": "close", "rec": "", "j": 0}]
+    batches.append(("lensweep", recs, [{"ops": ops, "comp": 0, "wbuf": 4096, "rbuf": 4096, "directio": False, "readprog": [1, 0], "seekall": False, "seeks": [], "damage": ""}]))
     # the protobuf access path (package recordio/proto: proto writer, proto reader incl. its deprecated constructors, memory mapped proto reader): the
     # writer programs WITHOUT a Seek (the proto writer has none), every record a message around the payload; a nil record cannot be expressed (-> EMPTY)
     noseek = [p for p in progs if not any(h["op"] == "seek" for h in p)]
